@@ -744,7 +744,7 @@ def run(ctx):
             ctx.exclude(K_DISCRETE)
         check_case(case, ctx)
 
-    ctx.run_hypothesis(case_strategy(allow_disc, ctx.pick(2, 3)), chk, ctx.pick(6, 40), salt="main")
+    ctx.run_hypothesis(case_strategy(allow_disc, ctx.pick(3, 4)), chk, ctx.pick(4, 20), salt="main")
 
 
 def replay(ctx, case):
